@@ -415,7 +415,7 @@ func H_C05_pipeline() {
 			verif.Assume(false)
 		}
 	}
-	verif.Opt("maporder", 1)
+	verif.Opt("maporder", 3)
 	doc, rows := numTable(n, "k", "v")
 	c, h := verif.F64("c"), verif.F64("h")
 	lim, off := 0, 0
